@@ -17,6 +17,7 @@ func TestFuzzC01(t *testing.T) { fuzzPart(t, "C01", 2000, 100000) }
 func TestFuzzC02(t *testing.T) { fuzzPart(t, "C02", 2000, 60000) }
 func TestFuzzC03(t *testing.T) { fuzzPart(t, "C03", 1000, 20000) }
 func TestFuzzC04(t *testing.T) { fuzzPart(t, "C04", 2000, 60000) }
+func TestFuzzC05(t *testing.T) { fuzzPart(t, "C05", 2000, 60000) }
 func TestFuzzC06(t *testing.T) { fuzzPart(t, "C06", 2000, 60000) }
 func TestFuzzC07(t *testing.T) { fuzzPart(t, "C07", 2000, 60000) }
 func TestFuzzC10(t *testing.T) { fuzzPart(t, "C10", 2000, 60000) }
